@@ -36,6 +36,7 @@ def pairs_for(ctx, limit_ex=None, n_rand=None):
     """(pairs, g) blocks: exhaustive small scope + random larger"""
     ex, g1, full = ctx.space.exhaustive_pairs(limit=limit_ex)
     rnd, g2 = ctx.space.random_pairs(n=n_rand)
+    ex, rnd = ctx.part(ex), ctx.part(rnd)
     ctx.bump("pairs_exhaustive_g%d%s" % (g1, "" if full else "_sampled"), len(ex))
     ctx.bump("pairs_random_g%d" % g2, len(rnd))
     return [(ex, g1), (rnd, g2)]
@@ -61,28 +62,32 @@ def c01(ctx):
     # shifted / scaled interval so that t_start != 0
     cases = []
     rnd, g = ctx.space.random_pairs(n=300)
+    rnd = ctx.part(rnd)
     for a, b in rnd:
         sh = [x * 3 - 1 for x in a], [x * 3 - 1 for x in b]
         cases.append((1, [eff(sh[0], Fr(-1), Fr(2)), eff(sh[1], Fr(-1), Fr(2)), Fr(-1), Fr(2), Fr(1, 2)]))
     ctx.corr(cases, pair_nt)
 
 
-def spec_vs_impl(ctx, quads, what, tol=core.TOL):
+def spec_vs_impl(ctx, quads, what, tol=core.TOL, proj=None):
     """quads: (spec_rid, spec_args, impl_rid, impl_args).  The spec routine is
-    evaluated by the extracted Coq code, the implementation through its adapter."""
+    evaluated by the extracted Coq code, the implementation through its adapter.
+    proj: optional projection applied to the implementation's result"""
     quads = [q for q in quads if ctx.supports(q[2])]
     if not quads:
         return
     sout = core.run_model([(q[0], q[1]) for q in quads])
     for q, sv in zip(quads, sout):
         iv = ctx.call(q[2], q[3])
+        if proj is not None and not isinstance(iv, core.Err):
+            iv = proj(iv)
         ctx.check()
         if pair_nt(q[2], q[3]):
             ctx.nontrivial(("spec", q[0], core.enc(q[1])))
         d = core.agree(sv, iv, tol)
         if d:
             ctx.violate(what, "%s" % (q[2],), q[3], expected="spec " + core.enc(core_enc(sv)),
-                        got=iv, diff=d, rid=q[2])
+                        got=iv, diff=d, rid=q[2], spec_rid=q[0], spec_args=core.enc(q[1]))
 
 
 def core_enc(v):
@@ -110,7 +115,7 @@ def c02(ctx):
     # helpers
     r = ctx.rng
     cases = []
-    for _ in range(3000 if ctx.tier == "quick" else 30000):
+    for _ in range(ctx.n(3000 if ctx.tier == "quick" else 30000)):
         l = sorted(set(Fr(r.randint(0, 16), 16) for _ in range(r.randint(0, 5))))
         x = Fr(r.randint(-4, 20), 16)
         a0 = min(l + [Z]) - Fr(r.randint(0, 4), 16)
@@ -169,7 +174,7 @@ def c03(ctx):
     # get_tau on contexts
     r = ctx.rng
     cases = []
-    for _ in range(4000 if ctx.tier == "quick" else 40000):
+    for _ in range(ctx.n(4000 if ctx.tier == "quick" else 40000)):
         def mk():
             if r.random() < 0.1:
                 return None
@@ -210,6 +215,7 @@ def c04(ctx):
                            for a, b in pairs for m in mrts_grid(g)[:3] for mt in maxtau_grid(g)],
                      "directionality values == leader/follower definition")
     lists, g = ctx.space.random_lists()
+    lists = ctx.part(lists)
     cases = []
     r = ctx.rng
     for L in lists:
@@ -342,6 +348,7 @@ def c05(ctx):
             A, B = T(a), T(b)
             chk_scalar_profile(ctx, "order", 71, [False, True, mt, m, A, B], 53, [False, mt, m, A, B], 34, None)
     lists, g = ctx.space.random_lists()
+    lists = ctx.part(lists)
     cases = []
     for L in lists:
         TL = [T(x) for x in L]
@@ -410,7 +417,9 @@ def sample_times(xs):
 def c06(ctx):
     r = ctx.rng
     lists, g = ctx.space.random_lists()
+    lists = ctx.part(lists)
     small, gs = ctx.space.small_lists(3, 2, 4, limit=600 if ctx.tier == "quick" else 4000)
+    small = ctx.part(small)
     ctx.bump("lists_random", len(lists))
     ctx.bump("lists_small_exhaustive_sampled", len(small))
     cases = []
@@ -653,7 +662,7 @@ def c08(ctx):
             for key, rid, args in (("isi", 50, [False, m, A, B]), ("spike", 51, [False, m, ri, A, B]),
                                    ("sync", 52, [False, mt, m, A, B]), ("order", 53, [False, mt, m, A, B]),
                                    ("dI", 54, [False, m, None, A, B]), ("dS", 55, [False, m, ri, None, A, B]),
-                                   ("sy", 56, [False, mt, m, None, A, B]), ("so", 71, [False, True, mt, m, A, B]),
+                                   ("sy", 56, [False, mt, m, None, A, B]), ("order_value", 71, [False, True, mt, m, A, B]),
                                    ("dir", 74, [False, False, mt, m, A, B])):
                 base[key] = (rid, args, ctx.call(rid, args))
             for nm, f, km in (("shift %s" % c, lambda x: x + c, Fr(1)), ("scale %s" % k, lambda x: x * k, k)):
@@ -695,9 +704,10 @@ def c08(ctx):
                     ok = feq(v[0], [1 - x for x in reversed(v0[0])]) and feq(v[1], list(reversed(v0[1]))) \
                         and feq(v[2], list(reversed(v0[2])))
                 elif key == "order":
+                    # the two edge entries only frame the profile and never count
                     ok = feq(v[0], [1 - x for x in reversed(v0[0])]) and \
-                        feq(v[1], [-y for y in reversed(v0[1])]) and feq(v[2], list(reversed(v0[2])))
-                elif key in ("so", "dir"):
+                        feq(v[1][1:-1], [-y for y in reversed(v0[1][1:-1])]) and feq(v[2], list(reversed(v0[2])))
+                elif key in ("order_value", "dir"):
                     ok = feq(v, -v0)
                 else:
                     ok = feq(v, v0)
@@ -705,7 +715,7 @@ def c08(ctx):
                     ctx.violate("mirror relation fails for %s" % key, str(rid), a2, expected=v0, got=v, rid=rid,
                                 base_args=core.enc(args))
     # isi_lengths / auto threshold scale with time
-    for _ in range(300 if ctx.tier == "quick" else 3000):
+    for _ in range(ctx.n(300 if ctx.tier == "quick" else 3000)):
         t = gen.rand_train(r, 5, 16)
         k = Fr(r.choice([2, 4, 8]), r.choice([1, 16]))
         x = ctx.call(42, [t, Z, ONE])
@@ -719,8 +729,8 @@ def c08(ctx):
 def all_bp_pairs(ctx):
     maxn, g = (3, 6) if ctx.tier == "quick" else (4, 8)
     sets = gen.all_interleavings_pwc(maxn, g)
-    pairs = [(a, b) for a in sets for b in sets]
-    lim = 1800 if ctx.tier == "quick" else 30000
+    pairs = ctx.part([(a, b) for a in sets for b in sets])
+    lim = ctx.n(1800 if ctx.tier == "quick" else 30000)
     if len(pairs) > lim:
         pairs = ctx.rng.sample(pairs, lim)
         ctx.bump("breakpoint_set_pairs_sampled", len(pairs))
@@ -818,7 +828,7 @@ def c09(ctx):
     spec_vs_impl(ctx, [(121, c[1], 21, c[1]) for c in cases if c[0] == 21], "pwl add == pointwise-sum spec")
     ctx.corr(cases, lambda rid, a: len(a[0]) + len(a[-2 if rid == 20 else -3]) >= 5)
     # histories of add / mul_scalar / copy with aliasing monitor
-    nh = 400 if ctx.tier == "quick" else 5000
+    nh = ctx.n(400 if ctx.tier == "quick" else 5000)
     for _ in range(nh):
         kind = r.choice(["pwc", "pwl"])
         mk = (lambda: gen.rand_pwc(r, 3, 8)) if kind == "pwc" else (lambda: gen.rand_pwl(r, 3, 8))
@@ -887,7 +897,7 @@ def c09(ctx):
             ctx.violate("history raises %s: %s" % (type(e).__name__, e), kind + " history", repr(ops),
                         base=core.enc([list(e_) for e_ in exact]))
     # order independence: a+b+c in all orders
-    for _ in range(150 if ctx.tier == "quick" else 2000):
+    for _ in range(ctx.n(150 if ctx.tier == "quick" else 2000)):
         fs = [gen.rand_pwl(r, 3, 8) for _ in range(3)]
         res = []
         for perm in itertools.permutations(range(3)):
@@ -912,7 +922,7 @@ def _arrs(o_):
 @prop("C10")
 def c10(ctx):
     r = ctx.rng
-    nf = 250 if ctx.tier == "quick" else 3000
+    nf = ctx.n(250 if ctx.tier == "quick" else 3000)
     ivs = gen.intervals(16)
     pts = [Fr(i, 16) for i in range(17)]
     cases, quads = [], []
@@ -957,7 +967,7 @@ def c10(ctx):
     spec_vs_impl(ctx, quads, "integral/evaluation == exact definition (overlap integral, limits)")
     ctx.corr(cases, lambda rid, a: len(a[0]) >= 3)
     # integer-valued input (psth counts)
-    for _ in range(100):
+    for _ in range(ctx.n(100)):
         xs = gen.breakpoints(r, 3, 8)
         ys = [r.randint(0, 4) for _ in range(len(xs) - 1)]
         f = ctx.ps.PieceWiseConstFunc([float(x) for x in xs], ys)
@@ -974,7 +984,7 @@ def c10(ctx):
 @prop("C11")
 def c11(ctx):
     r = ctx.rng
-    n = 1500 if ctx.tier == "quick" else 20000
+    n = ctx.n(1500 if ctx.tier == "quick" else 20000)
     ivs = gen.intervals(16)
     cases, quads = [], []
     for _ in range(n):
@@ -1008,7 +1018,9 @@ def c11(ctx):
                     and feq([i1[0] + i2[0], i1[1] + i2[1]], i3)):
                 ctx.violate("integral of sum != sum of integrals on %r" % (spec,), "df.add/integral", a22,
                             expected=[i1, i2], got=i3)
-    spec_vs_impl(ctx, quads, "discrete add / integral == event-wise definition")
+    spec_vs_impl(ctx, [q for q in quads if q[0] == 130], "discrete add == event-wise merge-sum",
+                 proj=lambda v: [x[1:-1] for x in v])
+    spec_vs_impl(ctx, [q for q in quads if q[0] != 130], "discrete integral == sum over events strictly inside")
     ctx.corr(cases, lambda rid, a: len(a[0]) >= 4)
 
 
@@ -1074,7 +1086,7 @@ def c12(ctx):
                             expected=sum(p[0]), got=x, rid=14)
     # get_tau and the add routines
     cases = []
-    for _ in range(1500 if ctx.tier == "quick" else 20000):
+    for _ in range(ctx.n(1500 if ctx.tier == "quick" else 20000)):
         def mk():
             if r.random() < 0.1:
                 return None
@@ -1133,7 +1145,7 @@ def c13(ctx):
     r = ctx.rng
     import numpy as np
     cases, quads = [], []
-    n = 600 if ctx.tier == "quick" else 8000
+    n = ctx.n(600 if ctx.tier == "quick" else 8000)
     for _ in range(n):
         l = [Fr(r.randint(0, 8), 8) for _ in range(r.randint(0, 6))]
         cases.append((40, [l]))
@@ -1157,6 +1169,7 @@ def c13(ctx):
     spec_vs_impl(ctx, quads, "reconcile == declarative specification")
     # every entry point: messy input == reconciled input with Reconcile=False; inputs untouched
     lists, g = ctx.space.random_lists(n=250 if ctx.tier == "quick" else 3000)
+    lists = ctx.part(lists)
     for L in lists:
         nL = len(L)
         m = r.choice(mrts_grid(g)[:3])
@@ -1226,6 +1239,7 @@ def c14(ctx):
     r = ctx.rng
     ps = ctx.ps
     lists, g = ctx.space.random_lists(n=250 if ctx.tier == "quick" else 3000, maxtr=5)
+    lists = ctx.part(lists)
     for L in lists:
         n = len(L)
         m = r.choice(mrts_grid(g)[:3])
@@ -1303,3 +1317,646 @@ def c14(ctx):
                   (72, [False, True, mt, m, TL, ix]), (73, [False, mt, m, TL, ix]),
                   (75, [False, False, mt, m, TL, ix])]
     ctx.corr(cases, lambda rid, a: True)
+
+
+# ---------------------------------------------------------------------------
+def _profile_vals(p):
+    return [v for arr in p[1:] for v in arr]
+
+
+@prop("C15")
+def c15(ctx):
+    r = ctx.rng
+    ps = ctx.ps
+    import numpy as np
+    from pyspike.isi_lengths import isi_lengths, default_thresh
+    # isi_lengths / default_thresh: model and specification
+    cases, quads = [], []
+    for t in ctx.part(gen.grid_trains(4, 8)):
+        cases.append((42, [t, Z, ONE]))
+        quads.append((141, [t, Z, ONE], 42, [t, Z, ONE]))
+    for _ in range(ctx.n(400 if ctx.tier == "quick" else 5000)):
+        trs = gen.rand_trains(r, r.randint(1, 4), 5, 16)
+        cases.append((43, [[T(x) for x in trs]]))
+        t = gen.rand_train(r, 6, 32)
+        sh = [x * 4 - 1 for x in t]
+        cases.append((42, [sh, Fr(-1), Fr(3)]))
+        quads.append((141, [sh, Fr(-1), Fr(3)], 42, [sh, Fr(-1), Fr(3)]))
+    ctx.corr(cases, lambda rid, a: True, functional=True)
+    spec_vs_impl(ctx, quads, "isi_lengths == interval lengths of the definition")
+    # kernels with MRTS: correspondence
+    for pairs, g in pairs_for(ctx, limit_ex=1500, n_rand=500):
+        kc = []
+        for a, b in pairs:
+            m = r.choice(mrts_grid(g))
+            mt = r.choice(maxtau_grid(g))
+            kc += [(1, [eff(a), eff(b), Z, ONE, m]), (2, [eff(a), eff(b), Z, ONE, m, r.random() < 0.5]),
+                   (6, [a, b, Z, ONE, mt, m])]
+        ctx.corr(kc, pair_nt)
+    for pairs, g in pairs_for(ctx, limit_ex=2500, n_rand=900):
+        for a, b in pairs:
+            A, B = T(a), T(b)
+            sa, sb = ctx.impl.train(A), ctx.impl.train(B)
+            ri = r.random() < 0.5
+            mt = float(r.choice(maxtau_grid(g)))
+            m1, m2 = sorted([r.choice(mrts_grid(g) + [Fr(1, g), Fr(3, g), Fr(1)]) for _ in range(2)])
+            if nontrivial_pair(a, b):
+                ctx.nontrivial(("c15", core.enc([a, b]), m1, m2, ri, mt))
+            q = ctx.impl._quiet
+            fns = [("isi_profile", lambda **k: ps.isi_profile(sa, sb, **k)),
+                   ("spike_profile", lambda **k: ps.spike_profile(sa, sb, RI=ri, **k)),
+                   ("spike_sync_profile", lambda **k: ps.spike_sync_profile(sa, sb, max_tau=mt, **k)),
+                   ("spike_train_order_profile", lambda **k: ps.spike_train_order_profile(sa, sb, max_tau=mt, **k)),
+                   ("isi_distance", lambda **k: ps.isi_distance(sa, sb, **k)),
+                   ("spike_distance", lambda **k: q(lambda: ps.spike_distance(sa, sb, RI=ri, **k))),
+                   ("spike_sync", lambda **k: ps.spike_sync(sa, sb, max_tau=mt, **k)),
+                   ("spike_directionality", lambda **k: ps.spike_directionality(sa, sb, max_tau=mt, **k))]
+            desc = [a, b, m1, m2, ri, Fr(mt)]
+            # the threshold below every ISI of the two trains
+            lens = isi_lengths([float(x) for x in a], 0.0, 1.0) + isi_lengths([float(x) for x in b], 0.0, 1.0)
+            mlow = min(lens) * r.choice([0.5, 0.75, 0.999])
+            auto = float(default_thresh([sa, sb]))
+            for name, f in fns:
+                v_none = core.call_impl(f)
+                v_zero = core.call_impl(lambda: f(MRTS=0.))
+                v1 = core.call_impl(lambda: f(MRTS=float(m1)))
+                v2 = core.call_impl(lambda: f(MRTS=float(m2)))
+                v_low = core.call_impl(lambda: f(MRTS=mlow))
+                v_auto = core.call_impl(lambda: f(MRTS='auto'))
+                v_expl = core.call_impl(lambda: f(MRTS=auto))
+                ctx.check(4)
+                if not feq(v_none, v_zero, 0.0):
+                    ctx.violate("MRTS=0 differs from the non-adaptive measure", name, desc, expected=v_none, got=v_zero)
+                if mlow > 0 and not feq(v_none, v_low):
+                    ctx.violate("MRTS below every ISI changes the result", name, desc + [Fr(mlow)], expected=v_none, got=v_low)
+                if not feq(v_auto, v_expl, 1e-12):
+                    ctx.violate("MRTS='auto' != passing the automatic threshold explicitly", name, desc, expected=v_expl, got=v_auto)
+                if isinstance(v1, core.Err) or isinstance(v2, core.Err):
+                    ctx.violate("raises with MRTS", name, desc, got=[v1, v2])
+                    continue
+                if name in ("isi_profile", "spike_profile"):
+                    if not feq(v1[0], v2[0]) or any(y2 > y1 + 1e-12 for y1, y2 in zip(_profile_vals(v1), _profile_vals(v2))):
+                        ctx.violate("raising MRTS increases a profile value", name, desc, expected=v1, got=v2)
+                elif name in ("isi_distance", "spike_distance"):
+                    if v2 > v1 + 1e-12:
+                        ctx.violate("raising MRTS increases the distance", name, desc, expected=v1, got=v2)
+                elif name == "spike_sync_profile":
+                    if not feq(v1[0], v2[0]) or any(y2 < y1 - 1e-12 for y1, y2 in zip(v1[1], v2[1])):
+                        ctx.violate("raising MRTS removes a coincidence", name, desc, expected=v1, got=v2)
+                elif name == "spike_train_order_profile":
+                    if not feq(v1[0], v2[0]) or any(abs(y2) < abs(y1) - 1e-12 for y1, y2 in zip(v1[1], v2[1])):
+                        ctx.violate("raising MRTS removes a coincidence (order profile)", name, desc, expected=v1, got=v2)
+                elif name == "spike_sync":
+                    if v2 < v1 - 1e-12:
+                        ctx.violate("raising MRTS lowers SPIKE-Sync", name, desc, expected=v1, got=v2)
+    # multivariate: 'auto' is the pooled threshold of the trains involved; thresh^2 = mean square
+    lists, g = ctx.space.random_lists(n=200 if ctx.tier == "quick" else 3000)
+    lists = ctx.part(lists)
+    for L in lists:
+        sts = ctx.impl.trains([T(t) for t in L])
+        ctx.nontrivial(("c15m", core.enc(L)))
+        auto = float(default_thresh(sts))
+        pool = []
+        for t in L:
+            pool += isi_lengths([float(x) for x in t], 0.0, 1.0)
+        exp = math.sqrt(sum(x * x for x in pool) / len(pool))
+        ctx.check()
+        if not core.close(auto, exp, 1e-12):
+            ctx.violate("default_thresh != RMS of the pooled ISI lengths", "default_thresh", [L], expected=exp, got=auto)
+        m1, m2 = sorted([float(r.choice(mrts_grid(g))) for _ in range(2)])
+        q = ctx.impl._quiet
+        for name, f in (("isi_profile", ps.isi_profile), ("spike_profile", ps.spike_profile),
+                        ("spike_sync_profile", ps.spike_sync_profile),
+                        ("isi_distance", ps.isi_distance), ("spike_distance", ps.spike_distance),
+                        ("spike_sync", ps.spike_sync), ("isi_distance_matrix", ps.isi_distance_matrix),
+                        ("spike_distance_matrix", ps.spike_distance_matrix),
+                        ("spike_sync_matrix", ps.spike_sync_matrix),
+                        ("spike_train_order", ps.spike_train_order),
+                        ("spike_directionality_values", ps.spike_directionality_values),
+                        ("spike_directionality_matrix", ps.spike_directionality_matrix)):
+            va = core.call_impl(lambda: q(lambda: f(sts, MRTS='auto')))
+            ve = core.call_impl(lambda: q(lambda: f(sts, MRTS=auto)))
+            v0 = core.call_impl(lambda: q(lambda: f(sts, MRTS=0.)))
+            vn = core.call_impl(lambda: q(lambda: f(sts)))
+            ctx.check(2)
+            if not feq(va, ve, 1e-12):
+                ctx.violate("multivariate MRTS='auto' != explicit pooled threshold", name, [L], expected=ve, got=va)
+            if not feq(v0, vn, 0.0):
+                ctx.violate("multivariate MRTS=0 != non-adaptive", name, [L], expected=vn, got=v0)
+            if name in ("isi_distance", "spike_distance", "isi_distance_matrix", "spike_distance_matrix"):
+                w1 = core.call_impl(lambda: q(lambda: f(sts, MRTS=m1)))
+                w2 = core.call_impl(lambda: q(lambda: f(sts, MRTS=m2)))
+                a1, a2 = np.array(w1, dtype=float), np.array(w2, dtype=float)
+                if isinstance(w1, core.Err) or isinstance(w2, core.Err) or (a2 > a1 + 1e-12).any():
+                    ctx.violate("raising MRTS increases a multivariate distance", name, [L, Fr(m1), Fr(m2)], expected=w1, got=w2)
+
+
+# ---------------------------------------------------------------------------
+def _min_other(x, other):
+    ds = [abs(x - y) for y in other if y != x]
+    return min(ds) if ds else None
+
+
+@prop("C16")
+def c16(ctx):
+    r = ctx.rng
+    ps = ctx.ps
+    for pairs, g in pairs_for(ctx):
+        # correspondence of the window routine and the coincidence kernels
+        ctx.corr(sync_cases(pairs, g, (6, 7, 8, 9)), pair_nt)
+        spec_vs_impl(ctx, [(102, [a, b, Z, ONE, mt, m], 6, [a, b, Z, ONE, mt, m])
+                           for a, b in pairs for m in mrts_grid(g)[:2] for mt in maxtau_grid(g)],
+                     "coincidence profile == pairwise definition (with max_tau)")
+        for a, b in pairs:
+            if not a or not b:
+                continue
+            m = r.choice(mrts_grid(g))
+            mts = sorted(set([Fr(r.randint(1, 2 * g), 2 * g) for _ in range(2)]))
+            if nontrivial_pair(a, b):
+                ctx.nontrivial(("c16", core.enc([a, b]), m, tuple(mts)))
+            prev = None
+            for mt in mts:
+                p = ctx.call(6, [a, b, Z, ONE, mt, m])
+                o_ = ctx.call(8, [a, b, Z, ONE, mt, m])
+                d = ctx.call(9, [a, b, Z, ONE, mt, m])
+                c1 = ctx.call(7, [a, b, Z, ONE, mt, m])
+                ctx.check(4)
+                if any(isinstance(v, core.Err) for v in (p, o_, d, c1)):
+                    ctx.violate("coincidence routine raises", "kernels", [a, b, mt, m], got=[p, o_, d, c1])
+                    continue
+                # every marked spike needs a partner closer than max_tau
+                def bound(x, own_is_1):
+                    dm = _min_other(Fr(x).limit_denominator(10 ** 6), b if own_is_1 else a)
+                    return dm is not None and dm < mt
+                for x, y, mp in list(zip(*p))[1:-1]:
+                    if mp == 1 and y != 0:
+                        X = Fr(x).limit_denominator(10 ** 6)
+                        if not bound(x, X in a):
+                            ctx.violate("spike marked coincident although every other spike is >= max_tau away",
+                                        "coincidence_profile", [a, b, Z, ONE, mt, m], got=p, rid=6)
+                            break
+                for x, y, mp in list(zip(*o_))[1:-1]:
+                    if mp == 1 and y != 0:
+                        X = Fr(x).limit_denominator(10 ** 6)
+                        if not bound(x, X in a):
+                            ctx.violate("order profile marks a pair >= max_tau apart", "order_profile",
+                                        [a, b, Z, ONE, mt, m], got=o_, rid=8)
+                            break
+                for k, v in enumerate(d[0]):
+                    if v != 0 and not (_min_other(a[k], b) is not None and _min_other(a[k], b) < mt):
+                        ctx.violate("directionality value for a pair >= max_tau apart", "directionality_profile",
+                                    [a, b, Z, ONE, mt, m], got=d, rid=9)
+                        break
+                for k, v in enumerate(c1):
+                    if v != 0 and a[k] not in b and not (_min_other(a[k], b) < mt):
+                        ctx.violate("per-spike indicator set for a pair >= max_tau apart", "coincidence_single",
+                                    [a, b, Z, ONE, mt, m], got=c1, rid=7)
+                        break
+                if prev is not None:
+                    if any(y2 < y1 - 1e-12 for y1, y2 in zip(prev[1], p[1])):
+                        ctx.violate("enlarging max_tau removes a coincidence", "coincidence_profile",
+                                    [a, b, Z, ONE, mts, m], expected=prev, got=p, rid=6)
+                prev = p
+            # no bound: also never fewer coincidences than any bounded run
+            p0 = ctx.call(6, [a, b, Z, ONE, Z, m])
+            if prev is not None and not isinstance(p0, core.Err) and any(y2 < y1 - 1e-12 for y1, y2 in zip(prev[1], p0[1])):
+                ctx.violate("max_tau=0 (no bound) has fewer coincidences than a bounded run", "coincidence_profile",
+                            [a, b, Z, ONE, mts, m], expected=prev, got=p0, rid=6)
+    # None == 0 through the public API; the bound through the public API
+    lists, g = ctx.space.random_lists(n=200 if ctx.tier == "quick" else 3000)
+    lists = ctx.part(lists)
+    for L in lists:
+        sts = ctx.impl.trains([T(t) for t in L])
+        m = float(r.choice(mrts_grid(g)[:3]))
+        ctx.nontrivial(("c16api", core.enc(L), m))
+        for name, f in (("spike_sync_profile", ps.spike_sync_profile), ("spike_sync", ps.spike_sync),
+                        ("spike_sync_matrix", ps.spike_sync_matrix),
+                        ("spike_train_order_profile", ps.spike_train_order_profile),
+                        ("spike_train_order", ps.spike_train_order),
+                        ("spike_directionality_values", ps.spike_directionality_values),
+                        ("spike_directionality_matrix", ps.spike_directionality_matrix),
+                        ("filter_by_spike_sync", lambda s, **k: ps.filter_by_spike_sync(s, 0.3, **k))):
+            vn = core.call_impl(lambda: f(sts, max_tau=None, MRTS=m))
+            v0 = core.call_impl(lambda: f(sts, max_tau=0, MRTS=m))
+            vd = core.call_impl(lambda: f(sts, MRTS=m))
+            ctx.check()
+            if not (feq(vn, v0, 0.0) and feq(vn, vd, 0.0)):
+                ctx.violate("max_tau=None / 0 / omitted differ", name, [L, Fr(m)], expected=vn, got=[v0, vd])
+        for (name, f) in (("spike_sync_profile", ps.spike_sync_profile), ("spike_train_order_profile", ps.spike_train_order_profile)):
+            mt = Fr(r.randint(1, g), 2 * g)
+            a, b = L[0], L[1]
+            p = core.call_impl(lambda: f(sts[0], sts[1], max_tau=float(mt), MRTS=m))
+            ctx.check()
+            if isinstance(p, core.Err):
+                ctx.violate("raises", name, [a, b, mt], got=p)
+                continue
+            for x, y, mp in list(zip(*p))[1:-1]:
+                X = Fr(x).limit_denominator(10 ** 6)
+                if mp == 1 and y != 0:
+                    dm = _min_other(X, b if X in a else a)
+                    if dm is None or not dm < mt:
+                        ctx.violate("API: spike marked coincident with partner >= max_tau away", name,
+                                    [a, b, mt, Fr(m)], got=p)
+                        break
+        # filter: a kept spike at threshold 0 has a partner within max_tau
+        mt = Fr(r.randint(1, g), 2 * g)
+        kept = core.call_impl(lambda: ps.filter_by_spike_sync(sts, 0.0, max_tau=float(mt), MRTS=m))
+        ctx.check()
+        if not isinstance(kept, core.Err):
+            for i, k in enumerate(kept):
+                others = [x for j, t in enumerate(L) if j != i for x in t]
+                for x in k[0]:
+                    X = Fr(x).limit_denominator(10 ** 6)
+                    if not any(abs(X - y) < mt for y in others):
+                        ctx.violate("filter keeps a spike with no spike of another train within max_tau",
+                                    "filter_by_spike_sync", [L, mt, Fr(m)], got=kept)
+                        break
+
+
+# ---------------------------------------------------------------------------
+@prop("C17")
+def c17(ctx):
+    r = ctx.rng
+    ps = ctx.ps
+    import numpy as np
+    lists, g = ctx.space.random_lists(n=400 if ctx.tier == "quick" else 6000)
+    small, gs = ctx.space.small_lists(3, 2, 4, limit=500 if ctx.tier == "quick" else 4000)
+    todo = [(L, g) for L in ctx.part(lists)] + [(L, gs) for L in ctx.part(small)]
+    cases, quads = [], []
+    for L, gg in todo:
+        n = len(L)
+        TL = [T(x) for x in L]
+        m = r.choice(mrts_grid(gg)[:3])
+        mt = r.choice(maxtau_grid(gg))
+        thr = Fr(r.randint(0, n - 1), n - 1) if r.random() < 0.7 else Fr(r.randint(0, 16), 16)
+        if sum(len(x) for x in L) >= 3:
+            ctx.nontrivial(("c17", core.enc(TL), m, mt, thr))
+        cases.append((70, [False, mt, m, thr, TL]))
+        quads.append((106, [mt, m, thr, TL], 70, [False, mt, m, thr, TL]))
+        for i in range(min(n, 2)):
+            cases.append((7, [L[i], L[(i + 1) % n], Z, ONE, mt, m]))
+            quads.append((103, [L[i], L[(i + 1) % n], Z, ONE, mt, m], 7, [L[i], L[(i + 1) % n], Z, ONE, mt, m]))
+        sts = ctx.impl.trains(TL)
+        snap = [(s.spikes.copy(), s.t_start, s.t_end) for s in sts]
+        res = core.call_impl(lambda: ps.filter_by_spike_sync(sts, float(thr), max_tau=float(mt), MRTS=float(m),
+                                                             return_removed_spikes=True))
+        ctx.check()
+        if isinstance(res, core.Err):
+            ctx.violate("filter raises", "filter_by_spike_sync", [False, mt, m, thr, TL], got=res, rid=70)
+            continue
+        for s, (sp, a, b) in zip(sts, snap):
+            if not (np.array_equal(s.spikes, sp) and s.t_start == a and s.t_end == b):
+                ctx.violate("filter modified its input", "filter_by_spike_sync", [False, mt, m, thr, TL], rid=70)
+        kept, removed = res
+        only = core.call_impl(lambda: ps.filter_by_spike_sync(sts, float(thr), max_tau=float(mt), MRTS=float(m)))
+        if not feq(only, kept):
+            ctx.violate("kept trains differ between the two return forms", "filter_by_spike_sync",
+                        [False, mt, m, thr, TL], expected=kept, got=only, rid=70)
+        prof = ctx.call(62, [False, mt, m, TL, None])
+        for i in range(n):
+            k, rm = kept[i], removed[i]
+            # partition in the original order on the original interval
+            if sorted(k[0] + rm[0]) != [float(x) for x in L[i]] or k[0] != sorted(k[0]) or rm[0] != sorted(rm[0]) \
+                    or k[1:] != [0.0, 1.0] or rm[1:] != [0.0, 1.0] or set(k[0]) & set(rm[0]):
+                ctx.violate("kept and removed spikes are not a partition of the input train", "filter_by_spike_sync",
+                            [False, mt, m, thr, TL], got=[k, rm], rid=70)
+                break
+            # link with the multivariate profile for spike times that are unique to this train
+            if isinstance(prof, core.Err):
+                continue
+            for x in L[i]:
+                if sum(1 for t in L if x in t) != 1:
+                    continue
+                idx = [q for q, px in enumerate(prof[0][1:-1], 1) if abs(px - float(x)) < 1e-12]
+                if len(idx) != 1:
+                    ctx.violate("multivariate profile has no single entry for a unique spike time", "spike_sync_profile",
+                                [False, mt, m, TL, None], got=prof, rid=62)
+                    break
+                frac = prof[1][idx[0]] / prof[2][idx[0]]
+                want_kept = frac > float(thr) + 1e-12
+                borderline = abs(frac - float(thr)) <= 1e-12
+                if not borderline and (float(x) in k[0]) != want_kept:
+                    ctx.violate("kept != (profile fraction > threshold)", "filter_by_spike_sync",
+                                [False, mt, m, thr, TL], expected="x=%s frac=%r" % (x, frac), got=[k, rm], rid=70)
+                    break
+                if borderline and float(x) in k[0]:
+                    ctx.violate("spike exactly at the threshold is kept (comparison must be strict)",
+                                "filter_by_spike_sync", [False, mt, m, thr, TL], expected="x=%s frac=%r" % (x, frac),
+                                got=[k, rm], rid=70)
+                    break
+        # monotone in the threshold
+        thr2 = min(Fr(1), thr + Fr(r.randint(0, 4), 8))
+        k2 = core.call_impl(lambda: ps.filter_by_spike_sync(sts, float(thr2), max_tau=float(mt), MRTS=float(m)))
+        ctx.check()
+        if isinstance(k2, core.Err) or any(not set(b_[0]) <= set(a_[0]) for a_, b_ in zip(kept, k2)):
+            ctx.violate("a higher threshold keeps a spike the lower one removed", "filter_by_spike_sync",
+                        [False, mt, m, [thr, thr2], TL], expected=kept, got=k2)
+    ctx.corr(cases, lambda rid, a: True, functional=True)
+    spec_vs_impl(ctx, [q for q in quads if q[0] == 106], "filter keeps exactly the spikes with count > thr*(N-1)",
+                 proj=lambda v: [[kr[0][0], kr[1][0]] for kr in v])
+    spec_vs_impl(ctx, [q for q in quads if q[0] == 103], "per-spike indicator == pairwise definition")
+
+
+# ---------------------------------------------------------------------------
+DEGENERATE = [[], [Z], [ONE], [Fr(1, 2)], [Z, ONE], [Z, Fr(1, 2)], [Fr(1, 2), ONE], [Fr(1, 4), Fr(1, 2)],
+              [Z, Fr(1, 4), ONE], [Fr(1, 4)], [Fr(1, 4), Fr(3, 4)]]
+
+
+def wf_profile(p, kind):
+    """None if the canonical profile p is well formed, else a description"""
+    if isinstance(p, core.Err):
+        return "raises %r" % p
+    if not core.all_finite(p):
+        return "not finite"
+    xs = p[0]
+    if not (xs and xs[0] == 0.0 and xs[-1] == 1.0):
+        return "time axis does not run from t_start to t_end"
+    if kind == "df":
+        if len(xs) < 2 or any(xs[k] > xs[k + 1] for k in range(len(xs) - 1)):
+            return "discrete time axis decreasing / edge entries missing"
+        if not (len(p[1]) == len(xs) and len(p[2]) == len(xs)):
+            return "inconsistent lengths"
+    else:
+        if any(xs[k] >= xs[k + 1] for k in range(len(xs) - 1)):
+            return "time axis not strictly increasing"
+        if any(len(a) != len(xs) - 1 for a in p[1:]):
+            return "inconsistent lengths"
+    return None
+
+
+@prop("C18")
+def c18(ctx):
+    r = ctx.rng
+    ps = ctx.ps
+    q = ctx.impl._quiet
+    # all pairs and a sample of triples/quadruples of degenerate trains + random lists with degenerate members
+    lists = [[a, b] for a in DEGENERATE for b in DEGENERATE]
+    rr = __import__("random").Random(ctx.seed + 5)
+    for _ in range(300 if ctx.tier == "quick" else 4000):
+        n = rr.randint(3, 5)
+        lists.append([rr.choice(DEGENERATE + [gen.rand_train(rr, 4, 8)]) for _ in range(n)])
+    lists = ctx.part(lists)
+    cases = []
+    for L in lists:
+        n = len(L)
+        TL = [T(x) for x in L]
+        sts = ctx.impl.trains(TL)
+        m = r.choice([Z, Fr(1, 4), Fr(2)])
+        mt = r.choice([Z, Fr(1, 4)])
+        ri = r.random() < 0.5
+        iv = r.choice([None, (0.25, 0.75), (0.0, 0.5), (0.5, 1.0), (0.125, 0.25)])
+        ctx.nontrivial(("c18", core.enc(TL), m, mt, ri, iv))
+        kM = dict(MRTS=float(m))
+        kS = dict(MRTS=float(m), RI=ri)
+        kT = dict(MRTS=float(m), max_tau=float(mt))
+        arg = (sts[0], sts[1]) if n == 2 else (sts,)
+        profs = [("isi_profile", ps.isi_profile, kM, "pw"), ("spike_profile", ps.spike_profile, kS, "pw"),
+                 ("spike_sync_profile", ps.spike_sync_profile, kT, "df"),
+                 ("spike_train_order_profile", ps.spike_train_order_profile, kT, "df")]
+        for name, f, kw, kind in profs:
+            for form in ((arg,) if n > 2 else (arg, (sts,))):
+                p = core.call_impl(lambda: f(*form, **kw))
+                ctx.check()
+                bad = wf_profile(p, kind)
+                if bad:
+                    ctx.violate("profile %s" % bad, name, [TL, m, mt, ri], got=p)
+        scal = [("isi_distance", ps.isi_distance, kM, True), ("spike_distance", ps.spike_distance, kS, True),
+                ("spike_sync", ps.spike_sync, kT, True), ("spike_train_order", ps.spike_train_order, kT, False),
+                ("isi_distance_matrix", ps.isi_distance_matrix, kM, True),
+                ("spike_distance_matrix", ps.spike_distance_matrix, kS, True),
+                ("spike_sync_matrix", ps.spike_sync_matrix, kT, True),
+                ("spike_directionality_matrix", ps.spike_directionality_matrix, kT, False),
+                ("spike_directionality_values", ps.spike_directionality_values, kT, False),
+                ("filter_by_spike_sync", lambda s, **k: ps.filter_by_spike_sync(s, 0.5, **k), kT, False)]
+        if n == 2:
+            scal.append(("spike_directionality", ps.spike_directionality, kT, False))
+        for name, f, kw, has_iv in scal:
+            kw = dict(kw)
+            if has_iv and iv is not None:
+                kw["interval"] = iv
+            forms = [(sts,)]
+            if n == 2 and "matrix" not in name and "values" not in name and "filter" not in name:
+                forms.append((sts[0], sts[1]))
+            if name == "spike_directionality":
+                forms = [(sts[0], sts[1])]
+            for form in forms:
+                v = core.call_impl(lambda: q(lambda: f(*form, **kw)))
+                ctx.check()
+                if isinstance(v, core.Err) or not core.all_finite(v):
+                    ctx.violate("scalar/matrix result raises or is not finite", name, [TL, m, mt, ri, repr(iv)], got=v)
+        if n == 2:
+            A, B = TL
+            cases += [(50, [False, m, A, B]), (51, [False, m, ri, A, B]), (52, [False, mt, m, A, B]),
+                      (53, [False, mt, m, A, B]), (54, [False, m, None, A, B]), (55, [False, m, ri, None, A, B]),
+                      (56, [False, mt, m, None, A, B]), (71, [False, True, mt, m, A, B]), (74, [False, True, mt, m, A, B])]
+        else:
+            cases += [(60, [False, m, TL, None]), (61, [False, m, ri, TL, None]), (62, [False, mt, m, TL, None]),
+                      (63, [False, mt, m, TL, None]), (64, [False, m, None, TL, None]),
+                      (66, [False, mt, m, None, TL, None]), (72, [False, True, mt, m, TL, None]),
+                      (73, [False, mt, m, TL, None]), (75, [False, True, mt, m, TL, None])]
+    ctx.corr(cases, lambda rid, a: True)
+
+
+# ---------------------------------------------------------------------------
+def _sig_equal(x, y, p):
+    """x printed with %.<p>e and read back"""
+    if x == y:
+        return True
+    if x == 0 or y == 0:
+        return abs(x - y) < 10.0 ** (-p - 300)
+    e = math.floor(math.log10(abs(x)))
+    return abs(x - y) <= 0.5000001 * 10.0 ** (e - p)
+
+
+@prop("C19")
+def c19(ctx):
+    import os
+    import tempfile
+    import numpy as np
+    r = ctx.rng
+    ps = ctx.ps
+    tmp = tempfile.mkdtemp(prefix="c19_")
+    fn = os.path.join(tmp, "t.txt")
+    try:
+        for it in range(ctx.n(500 if ctx.tier == "quick" else 8000)):
+            ntr = r.randint(1, 5)
+            scale = r.choice([1.0, 1e-3, 1e3, 123.456])
+            trains = []
+            for _ in range(ntr):
+                k = r.choice([0, 0, 1, 2, 5, 9])
+                trains.append(sorted(r.uniform(0, 100) * scale for _ in range(k)))
+            sep = r.choice([" ", ",", ";", "\t", ", "])
+            prec = r.choice([3, 8, 12, 17, 17])
+            edges = (0.0, 100.0 * scale)
+            sts = [ps.SpikeTrain(np.array(t), edges) for t in trains]
+            ctx.nontrivial(("c19", it, ctx.shard))
+            ctx.check()
+            try:
+                ps.save_spike_trains_to_txt(sts, fn, separator=sep, precision=prec)
+                # comment lines in between must be skipped
+                lines = open(fn).read().split("\n")
+                cm = r.choice(["#", "%", "//"])
+                with open(fn, "w") as f:
+                    f.write(cm + " header\n")
+                    for ln in lines[:-1]:
+                        f.write(ln + "\n")
+                        if r.random() < 0.2:
+                            f.write(cm + "x 1 2 3\n")
+                back = ps.load_spike_trains_from_txt(fn, edges, separator=sep, comment=cm, ignore_empty_lines=False)
+                back_ne = ps.load_spike_trains_from_txt(fn, edges, separator=sep, comment=cm)
+            except Exception as e:
+                ctx.violate("save/load raises %s: %s" % (type(e).__name__, e), "save/load", repr((trains, sep, prec)))
+                continue
+            desc = repr((trains, sep, prec, cm))
+            if len(back) != len(trains):
+                ctx.violate("number of trains changed by the round trip", "save/load", desc, expected=len(trains), got=len(back))
+                continue
+            ok = True
+            for t, b in zip(trains, back):
+                if len(t) != len(b.spikes) or (b.t_start, b.t_end) != edges:
+                    ok = False
+                elif prec == 17:
+                    ok = ok and all(x == y for x, y in zip(t, b.spikes.tolist()))
+                else:
+                    ok = ok and all(_sig_equal(x, y, prec) for x, y in zip(t, b.spikes.tolist()))
+            if not ok:
+                ctx.violate("spike times changed by the round trip", "save/load", desc, got=[b.spikes.tolist() for b in back])
+            ne = [t for t in trains if t]
+            if len(back_ne) != len(ne) or any(len(t) != len(b.spikes) for t, b in zip(ne, back_ne)):
+                ctx.violate("ignore_empty_lines=True does not drop exactly the empty trains", "save/load", desc,
+                            expected=len(ne), got=len(back_ne))
+            # unsorted line is sorted on load; is_sorted=True keeps the order
+            if trains and trains[0]:
+                sh = list(trains[0])
+                r.shuffle(sh)
+                s = sep.join("%.17e" % x for x in sh)
+                st = core.call_impl(lambda: ps.spike_train_from_string(s, edges, sep=sep))
+                ctx.check()
+                if isinstance(st, core.Err) or st[0] != trains[0]:
+                    ctx.violate("spike_train_from_string does not sort / changes times", "spike_train_from_string",
+                                repr((sh, sep)), expected=trains[0], got=st)
+                st2 = core.call_impl(lambda: ps.spike_train_from_string(s, edges[1], sep=sep, is_sorted=True))
+                if isinstance(st2, core.Err) or st2 != [sh, 0.0, edges[1]]:
+                    ctx.violate("from_string with scalar edge / is_sorted", "spike_train_from_string", repr((sh, sep)),
+                                expected=[sh, 0.0, edges[1]], got=st2)
+            # scalar edge
+            e1 = r.uniform(1, 50)
+            st3 = ps.SpikeTrain([0.5], e1)
+            if (st3.t_start, st3.t_end) != (0.0, e1):
+                ctx.violate("scalar edge != [0, edge]", "SpikeTrain", repr(e1), got=(st3.t_start, st3.t_end))
+        # time series import
+        cases = []
+        for it in range(ctx.n(300 if ctx.tier == "quick" else 4000)):
+            nrow = r.randint(1, 4)
+            ncol = r.randint(1, 9)
+            rows = [[r.random() < 0.4 for _ in range(ncol)] for _ in range(nrow)]
+            start = Fr(r.randint(-4, 8), 2)
+            binw = Fr(1, r.choice([1, 2, 4, 8]))
+            cm = r.choice(["#", "%"])
+            with open(fn, "w") as f:
+                f.write(cm + " c\n")
+                for row in rows:
+                    f.write(" ".join("1" if b else "0" for b in row) + "\n")
+            ctx.check()
+            ctx.nontrivial(("c19ts", it, ctx.shard))
+            res = core.call_impl(lambda: ps.import_spike_trains_from_time_series(fn, float(start), float(binw), comment=cm))
+            exp = [[[float(start + (k + 1) * binw) for k, b in enumerate(row) if b], float(start), float(start + ncol * binw)]
+                   for row in rows]
+            if not feq(res, exp, 0.0):
+                ctx.violate("time series import != start+(k+1)*bin", "import_spike_trains_from_time_series",
+                            repr((rows, str(start), str(binw))), expected=exp, got=res)
+            cases.append((81, [start, binw, rows[0]]))
+        ctx.corr(cases, lambda rid, a: True, functional=True)
+    finally:
+        import shutil
+        shutil.rmtree(tmp, ignore_errors=True)
+
+
+# ---------------------------------------------------------------------------
+@prop("C20")
+def c20(ctx):
+    import numpy as np
+    r = ctx.rng
+    ps = ctx.ps
+    cases = []
+    lists, g = ctx.space.random_lists(n=600 if ctx.tier == "quick" else 8000, maxtr=5, maxn=6, g=16)
+    lists = ctx.part(lists)
+    for L in lists:
+        TL = [T(x) for x in L]
+        TL[0] = [TL[0][0], Z, ONE]
+        if r.random() < 0.3 and len(TL) > 1:
+            TL[1] = [TL[1][0], Fr(-1), Fr(2)]      # only the first train's interval counts
+        ctx.nontrivial(("c20", core.enc(TL)))
+        cases.append((80, [TL]))
+        mg = ctx.call(80, [TL])
+        ctx.check()
+        allsp = sorted(float(x) for t in L for x in t)
+        if isinstance(mg, core.Err) or mg[0] != allsp or mg[1:] != [0.0, 1.0]:
+            ctx.violate("merge is not the sorted multiset union on the first train's interval", "merge_spike_trains",
+                        [TL], expected=[allsp, 0.0, 1.0], got=mg, rid=80)
+        # psth
+        sts = ctx.impl.trains([T(x) for x in L])
+        nb = r.choice([1, 2, 3, 4, 5, 8, 16])
+        bs = 1.0 / nb if r.random() < 0.7 else r.choice([0.3, 0.7, 0.26, 1.0, 0.124])
+        p = core.call_impl(lambda: ps.psth(sts, bs))
+        ctx.check()
+        if isinstance(p, core.Err):
+            ctx.violate("psth raises", "psth", [L, Fr(bs)], got=p)
+            continue
+        xs, ys = p
+        nbin = int(1.0 / bs)
+        widths = [xs[k + 1] - xs[k] for k in range(len(xs) - 1)]
+        bad = None
+        if len(xs) != nbin + 1 or len(ys) != nbin or xs[0] != 0.0 or xs[-1] != 1.0:
+            bad = "bins do not span the recording / wrong number of bins"
+        elif any(abs(w - widths[0]) > 1e-12 for w in widths):
+            bad = "bins are not equally wide"
+        elif sum(ys) != len(allsp):
+            bad = "bin counts do not sum to the number of spikes"
+        else:
+            for k in range(nbin):
+                lo, hi = xs[k], xs[k + 1]
+                c = sum(1 for x in allsp if lo <= x and (x < hi or (k == nbin - 1 and x <= hi)))
+                if c != ys[k]:
+                    bad = "bin %d holds %r, expected %d" % (k, ys[k], c)
+                    break
+        if bad:
+            ctx.violate("psth: " + bad, "psth", [L, Fr(bs)], got=p)
+        cases.append((82, [[Fr(i, nb) for i in range(nb + 1)], sorted(Fr(x) for t in L for x in t)]))
+    ctx.corr(cases, lambda rid, a: True, functional=True)
+    # Poisson generator
+    for it in range(ctx.n(300 if ctx.tier == "quick" else 4000)):
+        np.random.seed((ctx.seed + 7919 * it + ctx.shard) % (2 ** 31))
+        rate = r.choice([0.05, 0.5, 1.0, 5.0, 20.0])
+        iv = r.choice([(0.0, 10.0), (5.0, 6.0), 10.0, (-3.0, 3.0), (100.0, 100.5)])
+        st = core.call_impl(lambda: ps.generate_poisson_spikes(rate, iv))
+        ctx.check()
+        ctx.nontrivial(("c20p", it, ctx.shard))
+        t0, t1 = (0.0, iv) if isinstance(iv, float) else iv
+        if isinstance(st, core.Err) or st[1:] != [t0, t1] or st[0] != sorted(st[0]) or \
+                any(not (t0 <= x < t1) for x in st[0]):
+            ctx.violate("Poisson train not sorted / outside the interval / wrong edges", "generate_poisson_spikes",
+                        repr((rate, iv)), got=st)
+
+
+# ---------------------------------------------------------------------------
+def replay(ctx, rp):
+    """re-execute a replay record: model vs implementation for a routine call,
+    specification vs implementation for an oracle record, otherwise re-run the
+    whole property check at the recorded seed."""
+    if rp.get("kind") == "obligation" and rp.get("mismatch"):
+        rp = rp["mismatch"]
+    if rp.get("backend") and rp["backend"] != ctx.backend:
+        return
+    rid = rp.get("rid")
+    args = rp.get("args")
+    if isinstance(rid, int) and isinstance(args, str):
+        a = core.parse_out(args)
+        if rp.get("spec_rid"):
+            spec_vs_impl(ctx, [(rp["spec_rid"], core.parse_out(rp["spec_args"]), rid, a)], rp.get("what", "replay"))
+        elif rp.get("kind") == "correspondence" or rp.get("functional"):
+            ctx.corr([(rid, a)], lambda r_, a_: True)
+        else:
+            PROPS[ctx.prop](ctx)
+    else:
+        PROPS[ctx.prop](ctx)
